@@ -461,7 +461,7 @@ func (g *gen) setup() {
 	}
 	// cheap multi-chunk population: rows around the 16K-chunk edges, inserted through Replay
 	allKinds := g.p.name == "C07" || g.p.name == "C06"
-	if r.Intn(3) == 0 || (g.p.name == "C17" && r.Intn(3) > 0) || (g.p.wKey >= 100 && r.Intn(4) > 0) || (allKinds && r.Intn(4) > 0) || (g.p.name == "C02" && r.Intn(4) > 0) {
+	if r.Intn(3) == 0 || (g.p.name == "C17" && r.Intn(3) > 0) || (g.p.wKey >= 100 && r.Intn(4) > 0) || (allKinds && r.Intn(4) > 0) || (g.p.name == "C02" && r.Intn(4) > 0) || (g.p.name == "C16" && r.Intn(3) > 0) {
 		pool := []uint32{5, 63, 64, 16383, 16384, 16385, 16390, 20000, 32767, 32768, 32769, 40000}
 		var offs []string
 		for _, o := range pool {
@@ -489,6 +489,26 @@ func (g *gen) setup() {
 				}
 				g.emit("p commit " + tid)
 				g.feat("keyed-far-rows")
+			}
+			// the sorted-index profile: the far rows hold values in the sorted columns (an index created later must
+			// back-fill every chunk)
+			if g.p.name == "C16" {
+				g.nTxn++
+				tid := fmt.Sprintf("v%d", g.nTxn)
+				g.emit("p begin " + tid)
+				for _, o := range offs {
+					acts := ""
+					for _, c := range g.cols {
+						if c.kind == "string" {
+							acts += fmt.Sprintf(" set:%s:%s", c.name, g.strValue(false))
+						}
+					}
+					if acts != "" {
+						g.emit(fmt.Sprintf("p %s at %s%s", tid, o, acts))
+					}
+				}
+				g.emit("p commit " + tid)
+				g.feat("sorted-far-rows")
 			}
 			// every kind holds values beyond the first chunk
 			if allKinds {
